@@ -163,6 +163,21 @@ def _multi():
         A.Counter(s, 'c1', rs, inc, q1); A.ModuloCounter(s, 'c2', 10, rs, inc, q2, co)
         return None, {'rs': rs, 'inc': inc}, {'q1': q1, 'q2': q2, 'co': co}
     D['Counter-and-ModuloCounter'] = counters
+    # same class, same INSTANCE name, different parents, different parameters: module names must still tell the bodies apart
+    def two_dividers(s, c):
+        from py4hw.logic import clock as CK
+        o1 = s.wire('o1'); o2 = s.wire('o2')
+        CK.ClockDivider(s, 'div_a', 12, 2, o1); CK.ClockDivider(s, 'div_b', 20, 2, o2)       # both contain a ModuloCounter named 'count'
+        return None, {}, {'o1': o1, 'o2': o2}
+    D['two-ClockDividers-with-different-ratios'] = two_dividers
+    def same_names_below(s, c):
+        import py4hw as P
+        rs = s.wire('rs'); inc = s.wire('inc'); q1 = s.wire('q1', 4); q2 = s.wire('q2', 4); c1 = s.wire('c1'); c2 = s.wire('c2')
+        b1 = P.Logic(s, 'stage1'); b1.addIn('rs', rs); b1.addIn('inc', inc); b1.addOut('q1', q1); b1.addOut('c1', c1)
+        b2 = P.Logic(s, 'stage2'); b2.addIn('rs', rs); b2.addIn('c1', c1); b2.addOut('q2', q2); b2.addOut('c2', c2)
+        A.ModuloCounter(b1, 'cnt', 3, rs, inc, q1, c1); A.ModuloCounter(b2, 'cnt', 5, rs, c1, q2, c2)
+        return None, {'rs': rs, 'inc': inc}, {'q1': q1, 'q2': q2, 'c2': c2}
+    D['same-instance-name-under-two-parents-different-moduli'] = same_names_below
     return D
 
 
